@@ -11,6 +11,7 @@ import (
 	"github.com/yuin/goldmark/parser"
 	"github.com/yuin/goldmark/renderer"
 	"github.com/yuin/goldmark/renderer/html"
+	"github.com/yuin/goldmark/util"
 )
 
 // Config is one point of the built-in configuration lattice. It is stored verbatim in
@@ -35,6 +36,19 @@ type Config struct {
 	Unsafe      bool   `json:"unsafe,omitempty"`
 	XHTML       bool   `json:"xhtml,omitempty"`
 	HardWraps   bool   `json:"hardwraps,omitempty"`
+	// ErrRenderer: the caller registers node renderers of its own (thematic break, fenced code
+	// block, emphasis) that, unlike the built-in ones, look at the result of their writes and
+	// return the error: Render's early-return exit path ("an early return on a node-renderer
+	// error", C14's anchor text)
+	ErrRenderer bool `json:"err_renderer,omitempty"`
+	// HeadingAttr: parser.WithHeadingAttribute() (attributes on headings only) instead of / next to WithAttribute
+	HeadingAttr bool `json:"heading_attribute,omitempty"`
+	// ExtHTMLOpts: html options handed to the extension renderers themselves
+	// (WithTableHTMLOptions / WithFootnoteHTMLOptions: XHTML, Unsafe for those renderers only)
+	ExtHTMLOpts bool `json:"ext_html_opts,omitempty"`
+	// HTMLWriter "escaped": html.WithWriter(html.NewWriter(html.WithEscapedSpace())), a text writer
+	// of the caller's own instead of the package-level html.DefaultWriter
+	HTMLWriter string `json:"html_writer,omitempty"`
 }
 
 func (c Config) Key() string {
@@ -54,7 +68,7 @@ func (c Config) Key() string {
 	if c.Footnote && c.FootnoteOpt != "" {
 		b.WriteString("fnopt=" + c.FootnoteOpt + ",")
 	}
-	if (c.Footnote && c.FootnoteOpt != "" || c.GFM && (c.TableAlign != "" || c.LinkifyOpt != "")) && c.OptsVia != "" {
+	if c.via() {
 		b.WriteString("optsvia=" + c.OptsVia + ",")
 	}
 	f(c.Typographer, "typographer")
@@ -70,6 +84,12 @@ func (c Config) Key() string {
 	f(c.Unsafe, "unsafe")
 	f(c.XHTML, "xhtml")
 	f(c.HardWraps, "hardwraps")
+	f(c.ErrRenderer, "errrenderer")
+	f(c.HeadingAttr, "headingattr")
+	f(c.ExtHTMLOpts && (c.GFM || c.Footnote), "exthtml")
+	if c.HTMLWriter != "" {
+		b.WriteString("htmlwriter=" + c.HTMLWriter + ",")
+	}
 	s := b.String()
 	if s == "" {
 		return "core"
@@ -77,11 +97,17 @@ func (c Config) Key() string {
 	return strings.TrimSuffix(s, ",")
 }
 
+// via: extension options travel through WithRendererOptions / WithParserOptions (only
+// meaningful, and only part of the key, when there is such an option to deliver)
+func (c Config) via() bool {
+	return c.OptsVia == "renderer" && (c.Footnote && c.FootnoteOpt != "" || c.GFM && (c.TableAlign != "" || c.LinkifyOpt != ""))
+}
+
 func (c Config) IsDefault() bool { return c == Config{} }
 
 // C15's statement: auto heading ids on, no explicit attribute syntax, safe mode (so that
 // <hN> tags in the output can only come from the heading renderer).
-func (c Config) C15Applies() bool { return c.AutoID && !c.Attribute && !c.Unsafe }
+func (c Config) C15Applies() bool { return c.AutoID && !c.Attribute && !c.HeadingAttr && !c.Unsafe }
 
 // Build makes a brand new instance. Every call returns objects that share nothing with
 // earlier ones except what goldmark itself shares at package level.
@@ -89,9 +115,9 @@ func (c Config) Build() goldmark.Markdown {
 	var exts []goldmark.Extender
 	var viaR []renderer.Option // extension options passed as renderer options
 	var viaP []parser.Option   // ... and as parser options
-	via := c.OptsVia == "renderer"
+	via := c.via()
 	if c.GFM {
-		if c.TableAlign == "" && c.LinkifyOpt == "" {
+		if c.TableAlign == "" && c.LinkifyOpt == "" && !c.ExtHTMLOpts {
 			exts = append(exts, extension.GFM)
 		} else {
 			var table, linkify goldmark.Extender = extension.Table, extension.Linkify
@@ -109,9 +135,13 @@ func (c Config) Build() goldmark.Markdown {
 				}
 				if via {
 					viaR = append(viaR, extension.WithTableCellAlignMethod(m))
+				} else if c.ExtHTMLOpts {
+					table = extension.NewTable(extension.WithTableCellAlignMethod(m), extension.WithTableHTMLOptions(html.WithXHTML()))
 				} else {
 					table = extension.NewTable(extension.WithTableCellAlignMethod(m))
 				}
+			} else if c.ExtHTMLOpts {
+				table = extension.NewTable(extension.WithTableHTMLOptions(html.WithXHTML()))
 			}
 			var lo []extension.LinkifyOption
 			switch c.LinkifyOpt {
@@ -158,6 +188,9 @@ func (c Config) Build() goldmark.Markdown {
 		default:
 			panic("bad footnote_opt " + c.FootnoteOpt)
 		}
+		if c.ExtHTMLOpts && !via {
+			fo = append(fo, extension.WithFootnoteHTMLOptions(html.WithXHTML(), html.WithUnsafe()))
+		}
 		switch {
 		case len(fo) == 0:
 			exts = append(exts, extension.Footnote)
@@ -196,6 +229,9 @@ func (c Config) Build() goldmark.Markdown {
 	if c.Attribute {
 		popts = append(popts, parser.WithAttribute())
 	}
+	if c.HeadingAttr {
+		popts = append(popts, parser.WithHeadingAttribute())
+	}
 	opts := []goldmark.Option{goldmark.WithExtensions(exts...)}
 	if len(popts) > 0 {
 		opts = append(opts, goldmark.WithParserOptions(popts...))
@@ -211,6 +247,18 @@ func (c Config) Build() goldmark.Markdown {
 	}
 	if c.HardWraps {
 		opts = append(opts, goldmark.WithRendererOptions(html.WithHardWraps()))
+	}
+	switch c.HTMLWriter {
+	case "":
+	case "escaped":
+		opts = append(opts, goldmark.WithRendererOptions(html.WithWriter(html.NewWriter(html.WithEscapedSpace()))))
+	case "own":
+		opts = append(opts, goldmark.WithRendererOptions(html.WithWriter(html.NewWriter())))
+	default:
+		panic("bad html_writer " + c.HTMLWriter)
+	}
+	if c.ErrRenderer {
+		opts = append(opts, goldmark.WithRendererOptions(renderer.WithNodeRenderers(util.Prioritized(errPropRenderer{}, 100))))
 	}
 	return goldmark.New(opts...)
 }
@@ -280,9 +328,19 @@ func genConfig(r *Rng, mode string) Config {
 	c.Unsafe = r.Chance(1, 3)
 	c.XHTML = r.Chance(1, 3)
 	c.HardWraps = r.Chance(1, 4)
+	// a stream of its own again (session 4): the caller's own node renderers / text writer,
+	// heading-only attributes, html options for the extension renderers
+	r4 := r.Split("ext-options-4")
+	c.ErrRenderer = r4.Chance(1, 4)
+	c.HeadingAttr = r4.Chance(1, 6)
+	c.ExtHTMLOpts = (c.GFM || c.Footnote) && r4.Chance(1, 5)
+	if r4.Chance(1, 6) {
+		c.HTMLWriter = pick(r4, []string{"escaped", "own"})
+	}
 	if mode == "c15" {
 		c.AutoID = true
 		c.Attribute = false
+		c.HeadingAttr = false
 		c.Unsafe = false
 	}
 	return c
@@ -294,6 +352,7 @@ func (c Config) String() string { return fmt.Sprintf("cfg{%s}", c.Key()) }
 func parserSide(c Config) Config {
 	c.Unsafe, c.XHTML, c.HardWraps = false, false, false
 	c.TableAlign, c.FootnoteOpt, c.OptsVia = "", "", ""
+	c.ErrRenderer, c.ExtHTMLOpts, c.HTMLWriter = false, false, ""
 	if c.CJK != "" {
 		c.CJK = "default"
 	}
@@ -306,7 +365,19 @@ func parserSide(c Config) Config {
 func configVariant(r *Rng, c Config, c15 bool) Config {
 	v := c
 	for i := 0; i < 6 && (v == c || r.Chance(1, 2)); i++ {
-		switch r.Intn(8) {
+		switch r.Intn(11) {
+		case 8:
+			v.ErrRenderer = !v.ErrRenderer
+		case 9:
+			if !c15 {
+				v.HeadingAttr = !v.HeadingAttr
+			}
+		case 10:
+			if r.Chance(1, 2) {
+				v.HTMLWriter = pick(r, []string{"", "escaped", "own"})
+			} else if c.GFM || c.Footnote {
+				v.ExtHTMLOpts = !v.ExtHTMLOpts
+			}
 		case 0:
 			if c.GFM {
 				v.LinkifyOpt = pick(r, []string{"", "protocols", "regexp"})
@@ -350,7 +421,15 @@ func configVariant(r *Rng, c Config, c15 bool) Config {
 func rendererVariant(r *Rng, c Config) Config {
 	v := c
 	for i := 0; i < 8 && v == c; i++ {
-		switch r.Intn(6) {
+		switch r.Intn(9) {
+		case 6:
+			v.ErrRenderer = !v.ErrRenderer
+		case 7:
+			if c.GFM || c.Footnote {
+				v.ExtHTMLOpts = !v.ExtHTMLOpts
+			}
+		case 8:
+			v.HTMLWriter = pick(r, []string{"", "escaped", "own"})
 		case 0:
 			v.Unsafe = !v.Unsafe
 		case 1:
@@ -376,4 +455,55 @@ func rendererVariant(r *Rng, c Config) Config {
 		v.XHTML = !v.XHTML
 	}
 	return v
+}
+
+// errPropRenderer: node renderers of the caller's own which, unlike the built-in ones, look at
+// the result of every write and return the first error (stateless: it is shared by every
+// goroutine that uses the instance). With them Render leaves through its early-return path
+// when the destination fails while one of these nodes is being written.
+type errPropRenderer struct{}
+
+func (errPropRenderer) RegisterFuncs(reg renderer.NodeRendererFuncRegisterer) {
+	reg.Register(gast.KindThematicBreak, func(w util.BufWriter, source []byte, n gast.Node, entering bool) (gast.WalkStatus, error) {
+		if !entering {
+			return gast.WalkContinue, nil
+		}
+		if _, err := w.WriteString("<hr class=\"own\">"); err != nil {
+			return gast.WalkStop, err
+		}
+		if err := w.WriteByte('\n'); err != nil {
+			return gast.WalkStop, err
+		}
+		return gast.WalkContinue, nil
+	})
+	reg.Register(gast.KindFencedCodeBlock, func(w util.BufWriter, source []byte, n gast.Node, entering bool) (gast.WalkStatus, error) {
+		if !entering {
+			_, err := w.WriteString("</code></pre>\n")
+			return gast.WalkContinue, err
+		}
+		if _, err := w.WriteString("<pre class=\"own\"><code>"); err != nil {
+			return gast.WalkStop, err
+		}
+		ls := n.Lines()
+		for i := 0; i < ls.Len(); i++ {
+			seg := ls.At(i)
+			if _, err := w.Write(util.EscapeHTML(seg.Value(source))); err != nil {
+				return gast.WalkStop, fmt.Errorf("own code block renderer, line %d: %w", i, err)
+			}
+		}
+		return gast.WalkContinue, nil
+	})
+	reg.Register(gast.KindEmphasis, func(w util.BufWriter, source []byte, n gast.Node, entering bool) (gast.WalkStatus, error) {
+		tag := "em"
+		if n.(*gast.Emphasis).Level == 2 {
+			tag = "strong"
+		}
+		var err error
+		if entering {
+			_, err = w.WriteString("<" + tag + " class=\"own\">")
+		} else {
+			_, err = w.WriteString("</" + tag + ">")
+		}
+		return gast.WalkContinue, err
+	})
 }
